@@ -50,6 +50,11 @@ CHECKS = {
           "12 000 generated cases (180 000 thorough): texts with BMP/astral characters, lone surrogates, odd byte counts, malformed double-byte sequences, encoded as UTF-16LE/BE/UTF-8 with BOM or searched with an explicit label, BOM vs conflicting label, --encoding none; each searched under slice, fragmented readers (splitting code units and surrogate pairs, crossing the 8 KiB transcoding buffer), file and mmap, and compared event by event with the search of the one-shot transcoding; plus a CLI sample. Random exploration with shrinking.",
           "Trusts encoding_rs's one-shot decode as the meaning of 'its UTF-8 transcoding'; four known findings rooted in encoding_rs_io / encoding_rs are tolerated by exact predicted deviation.",
           "DESIGN.md section 3 C17"),
+  "C19": (True, "exploration",
+          "proptest-driven generated (pattern with groups, template, haystack) cases; differential oracle = regex crate Captures::expand / Regex::replace_all per matching line",
+          "20 000 interpolate cases (~48 000 pattern/template pairs) comparing the in-repo interpolation and replace_with_captures with the regex library, plus 5 000 in-process printer cases (-r with -o, -U, --crlf, --column, -v with context, reader strategies) and a CLI sample, each compared line by line with replace_all of the original line. Random exploration with shrinking (x20 in the thorough tier).",
+          "Shares the regex engine for matching; -U with -v and a few undocumented framings are excluded and counted; four known findings (braced reference charset, terminator of replaced lines x2, empty match at the end of an unterminated last line) tolerated by exact shape.",
+          "DESIGN.md section 3 C19"),
   "C03": (True, "exploration",
           "exhaustive small-scope enumeration + proptest-driven random cases against a reference model (LineModel)",
           "Every input of up to 5 lines over a 5-symbol line alphabet and every match bitmap up to 9 lines (quick; 7/11 thorough), times the full product of context sizes 0..3, invert, passthru, stop-on-nonmatch, line numbers, LF/CRLF/NUL, 4 matcher kinds and 5 strategies is compared event by event with an independent grep model; plus thousands of random larger cases. Bounded-exhaustive, not a proof.",
